@@ -284,14 +284,33 @@ def rand_uplink(rng, sess):
         # node-table notices (C15): loss of a connected board / interface, login of an absent or lost board (possibly at a new
         # address), notices about unknown unique ids; sender = an interface of the tree
         ver = rng.randrange(1, 255)
-        ifaces = [p for p, u in sess.tree if (u[0] & 0x80 or p == []) and len(p) < 3] or [[]]
+        # the notices describe a bus that could exist: the generator keeps track of who sits where, a new node is never
+        # announced on an address another node occupies, a lost interface takes everything beneath it with it (what the
+        # library should do when two boards are announced on one address is not specified, so it is not generated)
+        where = getattr(sess, "_where", None)
+        if where is None:
+            where = {tuple(u): list(p) for p, u in sess.tree}; sess._where = where
+        def beneath(path): return [k for k, p in where.items() if p[:len(path)] == path and p != path]
+        conn_ifaces = [p for k, p in where.items() if (k[0] & 0x80 or p == []) and len(p) < 3] or [[]]
         if rng.random() < 0.5 and boards:
-            b = rng.choice(boards); u = uid[b]
-            return rng.choice(ifaces), 0x8c, [ver, rng.randrange(1, 20)] + list(u)                   # NODE_LOST
+            b = rng.choice(boards); u = uid[b]; path = where.get(tuple(u))
+            if path:                                                                                  # connected, not the root
+                for k in beneath(path): del where[k]
+                del where[tuple(u)]
+                return path[:-1], 0x8c, [ver, path[-1]] + list(u)                                     # NODE_LOST from its interface
+            if path is None: return rng.choice(conn_ifaces), 0x8c, [ver, rng.randrange(1, 20)] + list(u)   # notice about a board that is not there
         if rng.random() < 0.8 and boards:
             b = rng.choice(boards); u = uid[b]
         else: u = [rng.randrange(256) for _ in range(7)]
-        return rng.choice(ifaces), 0x8d, [ver, rng.choice([1, 2, 3, 9, 200])] + list(u)              # NODE_NEW
+        cur = where.get(tuple(u))
+        if cur is not None and (cur == [] or beneath(cur) or rng.random() < 0.7):
+            u = [rng.randrange(256) for _ in range(7)]; cur = None                                    # re-login only of a leaf, now and then
+        parent = rng.choice(conn_ifaces)
+        free = [x for x in (1, 2, 3, 9, 200) if not any(p == parent + [x] for p in where.values())]
+        if free:
+            if cur is not None: del where[tuple(u)]
+            x = rng.choice(free); where[tuple(u)] = parent + [x]
+            return parent, 0x8d, [ver, x] + list(u)                                                   # NODE_NEW
     if kind in ("occ", "free", "cur", "addr", "multi", "conf"):
         if ent["seg"] and rng.random() < 0.9: b, sg = pick("seg", ent["seg"]); num = sg["addr"] if rng.random() < 0.9 else bval(rng)
         elif anyb: b, num = anyb, bval(rng)
